@@ -3,7 +3,7 @@
 \* Measured: 1,838,381 distinct states, depth 37.
 CONSTANTS
   NV = 4
-  Power <- DrvUnitPower
+  PowerOf <- DrvPowerOf
   MaxVal = 1
   NValid = 1
   MaxRound = 1
